@@ -336,4 +336,113 @@ theorem C15_gen_run_for_eq_model (f : Nat) (s : Sim) (d : Int) :
   rw [h]
   exact ⟨by simp [interpRunUntil, runFor], rfl⟩
 
+/-! ### `Simulator.run_next_event` (try / except IndexError / else around the translated `pop_event`) -/
+
+/-- more fuel than events changes nothing at the heap level either -/
+theorem heapPopLive_fuel (f : Nat) (hp : List Ev) (hf : hp.length < f) :
+    heapPopLive f hp = heapPopLive (hp.length + 1) hp := by
+  induction f generalizing hp with
+  | zero => omega
+  | succ f ih =>
+    unfold heapPopLive
+    cases hq : heappop Ev.lt hp with
+    | none => rfl
+    | some r =>
+      obtain ⟨e, hp'⟩ := r
+      have hlen := (heappop_perm Ev.lt hq).length_eq
+      simp only [List.length_cons] at hlen
+      cases hc : e.cancelled
+      · simp [hc]
+      · simp only [hc, if_true]
+        rw [hlen]
+        exact ih hp' (by omega)
+
+/-- the generated `pop_event` with adequate fuel, as a case distinction on the heap-level model -/
+theorem gen_pop_event_cases (fuel : Nat) (hp : List Ev) (hf : hp.length < fuel) :
+    match heapPopLive (hp.length + 1) hp with
+    | some (e, hp') => GenFn.pop_event ⟨hp⟩ fuel = (.ok e, hp')
+    | none => GenFn.pop_event ⟨hp⟩ fuel = (.error Py.Err.Index, []) := by
+  have hA := C14_gen_pop_event_fuel_adequate fuel hp hf
+  obtain ⟨h1, h2⟩ := C14_gen_pop_event_eq_model fuel hp
+  have h1 := h1 hA
+  rw [heapPopLive_fuel fuel hp hf] at h1
+  revert hA h1 h2
+  generalize GenFn.pop_event ⟨hp⟩ fuel = r
+  obtain ⟨v, st⟩ := r
+  intro hA h2 h1
+  cases v with
+  | ok e =>
+    simp only [popConv, Option.some.injEq] at h1
+    rw [← h1]
+  | error err =>
+    cases err <;> simp [popConv] at h1 hA
+    rw [← h1]
+    simp at h2
+    simp [h2]
+
+/-- what the outputs of the generated `run_next_event` mean IN THE MODEL: the recorded `event.execute()` calls are the model's
+    `exec`, on the state whose clock / event list are the ones the generated text computed -/
+def interpExec (es : List Ev) (s : Sim) : Sim := es.foldl exec s
+
+/-- **`Simulator.run_next_event` as generated = the model's `runNext`** under the guard of the code (`self.model is not None`),
+    for every heap array `hp` that holds the model's sorted pending list and every fuel above the number of events: no
+    exception; the array left behind holds what the model leaves pending; and the model's `runNext` is the recorded
+    `event.execute()` (none on a list without live events — the `except IndexError: return` path) run by the model's `exec` on
+    the state with the clock the generated text computed. -/
+theorem C14_gen_run_next_event_eq_model (s : Sim) (hp : List Ev) (m : Int) (fuel : Nat) (r : Refines hp s.pending)
+    (hf : hp.length < fuel) :
+    (GenFn.run_next_event ⟨s.now, some m, ⟨hp⟩⟩ fuel).1 = .ok () ∧
+    Refines (GenFn.run_next_event ⟨s.now, some m, ⟨hp⟩⟩ fuel).2.2.2 ((popLive s.pending).elim [] (·.2)) ∧
+    runNext s = interpExec (GenFn.run_next_event ⟨s.now, some m, ⟨hp⟩⟩ fuel).2.1
+      { s with now := (GenFn.run_next_event ⟨s.now, some m, ⟨hp⟩⟩ fuel).2.2.1,
+               pending := (popLive s.pending).elim [] (·.2),
+               gone := s.gone ++ (skipped s.pending).map (·.id) } := by
+  have hc := gen_pop_event_cases fuel hp hf
+  have hr := refines_popLive r
+  rw [← r.perm.length_eq] at hr
+  cases hpl : popLive s.pending with
+  | none =>
+    simp only [hpl] at hr
+    rw [hr] at hc
+    simp only at hc
+    simp [GenFn.run_next_event, hc, runNext, hpl, interpExec, refines_nil]
+  | some p =>
+    obtain ⟨e, rest⟩ := p
+    simp only [hpl] at hr
+    obtain ⟨hp', hq, r'⟩ := hr
+    rw [hq] at hc
+    simp only at hc
+    simp [GenFn.run_next_event, hc, runNext, hpl, interpExec, r']
+
+/-- the guard: without a model (`self.model is None`) `run_next_event` raises `Exception` and touches nothing -/
+theorem C14_gen_run_next_event_guard (t : Int) (hp : List Ev) (fuel : Nat) :
+    GenFn.run_next_event ⟨t, none, ⟨hp⟩⟩ fuel = (.error Py.Err.Exception, [], t, hp) := by
+  simp [GenFn.run_next_event]
+
+/-- C14's ordering clause for one `run_next_event`, about the code-derived text: on a heap w.r.t. the code's `__lt__`, with a
+    model set up, `run_next_event` never raises; it executes exactly one event — a live one, no event left in the list is
+    smaller in the (time, priority, id) order, the clock is its time — or, when every event is cancelled, executes nothing
+    and leaves the clock alone. -/
+theorem C14_run_next_event_generated (t m : Int) (hp : List Ev) (fuel : Nat) (h : IsHeap GenFn.lt hp) (hf : hp.length < fuel) :
+    (GenFn.run_next_event ⟨t, some m, ⟨hp⟩⟩ fuel).1 = .ok () ∧
+    (((∀ e ∈ hp, e.cancelled = true) ∧ (GenFn.run_next_event ⟨t, some m, ⟨hp⟩⟩ fuel).2 = ([], t, [])) ∨
+     ∃ e, (GenFn.run_next_event ⟨t, some m, ⟨hp⟩⟩ fuel).2.1 = [e] ∧ (GenFn.run_next_event ⟨t, some m, ⟨hp⟩⟩ fuel).2.2.1 = e.time ∧
+       e.cancelled = false ∧ e ∈ hp ∧ ∀ y ∈ (GenFn.run_next_event ⟨t, some m, ⟨hp⟩⟩ fuel).2.2.2, GenFn.lt y e = false) := by
+  have hc := gen_pop_event_cases fuel hp hf
+  cases hpl : heapPopLive (hp.length + 1) hp with
+  | none =>
+    rw [hpl] at hc
+    simp only at hc
+    have hi := (C14_pop_event_index_iff_generated fuel hp hf).mp (by rw [hc])
+    simp [GenFn.run_next_event, hc]
+    exact hi
+  | some p =>
+    obtain ⟨e, hp'⟩ := p
+    rw [hpl] at hc
+    simp only at hc
+    obtain ⟨a, b, _, d⟩ := C14_pop_event_generated fuel hp hp' e h hc
+    refine ⟨by simp [GenFn.run_next_event, hc], Or.inr ⟨e, ?_⟩⟩
+    simp [GenFn.run_next_event, hc, a, b]
+    exact d
+
 end Mesa.Devs
